@@ -13,7 +13,10 @@ pub struct Number {
 impl PartialEq for Number {
     fn eq(&self, other: &Self) -> bool {
         let (a, b) = (self.value, other.value);
-        a == b || (a - b).abs() <= f64::EPSILON * a.abs().max(b.abs())
+        a == b
+            || (a.is_finite()
+                && b.is_finite()
+                && (a - b).abs() <= f64::EPSILON * a.abs().max(b.abs()))
     }
 }
 impl Eq for Number {}
